@@ -14,8 +14,15 @@ def rule_single_reader(ctx, R):
         if not f.startswith("parser/src/"):
             continue
         for q, fn in fns_in_file(f):
+            import sgrep
+
+            lenv = sgrep.lets(fn["body"])
             for c in method_calls(fn["body"], "parse"):
-                recv = render(c["recv"]).replace(" ", "")
+                r = strip(c["recv"])
+                for _ in range(3):
+                    if r["k"] == "Path" and r["path"] in lenv:
+                        r = strip(lenv[r["path"]])
+                recv = render(r).replace(" ", "")
                 if "ParseAstParser::new()" not in recv:
                     continue
                 n += 1
